@@ -201,6 +201,7 @@ func runC01(c *run.Ctx) {
 	stagedHierarchy(c, "c01", c.N(120, 2000))
 	c01Unbound(c, c.N(150, 4000))
 	petsRequests(c, "c01", c.N(200, 4000))
+	c08GoDirectiveForms(c) // (shared with C08: which concrete type a value is answered as is also the shape of the response)
 }
 
 type c01CutReader struct {
